@@ -32,7 +32,7 @@
 #define MC_MAXCTR    96
 #define MC_MAXSAMPLE 24
 #define MC_MAXPHASE  64
-#define MC_CASEMAX   3072
+#define MC_CASEMAX   4096
 
 typedef struct {
     char sub[40];        /* sub-check (layer) name */
